@@ -67,6 +67,10 @@ type PFCPConn struct {
 	hbCtxCancel context.CancelFunc
 
 	pendingReqs sync.Map
+
+	// Shutdown can be triggered by several goroutines at once (release request, read
+	// timeout, heartbeat failure, node stop); its body runs once.
+	shutdownOnce sync.Once
 }
 
 func (pConn *PFCPConn) startHeartBeatMonitor() {
@@ -231,6 +235,10 @@ func (pConn *PFCPConn) Serve() {
 
 // Shutdown stops connection backing PFCPConn.
 func (pConn *PFCPConn) Shutdown() {
+	pConn.shutdownOnce.Do(pConn.shutdownNow)
+}
+
+func (pConn *PFCPConn) shutdownNow() {
 	close(pConn.shutdown)
 
 	if pConn.hbCtxCancel != nil {
